@@ -189,6 +189,11 @@ func HarnessC09EnableCancel() {
 		zzverif.Fail("C04 Config failed with delayed verification")
 		return
 	}
+	if zzverif.Choose("successFirst", 2) == 1 {
+		// verification is already on when the abandoned call arrives
+		_, _, e0 := d.EnableVerification(ctx)
+		zzverif.Assert(e0 == nil, "C09 EnableVerification failed on a valid config")
+	}
 	ectx, ecancel := context.WithCancel(ctx)
 	go func() { ecancel() }()
 	_, _, _ = d.EnableVerification(ectx)
